@@ -90,6 +90,12 @@ def ncf2lateral_boundary(ncffile, outpath):
     time_hdr['etime'] = time + 1.
     time_hdr['iedate'] += (time_hdr['etime'] // 24).astype('i')
     time_hdr['etime'] -= (time_hdr['etime'] // 24) * 24
+    # roll day 366/367 over to day 1 of the next (two-digit) year
+    edate = time_hdr['iedate']
+    ylen = np.where((edate // 1000) % 4 == 0, 366, 365)
+    over = (edate % 1000) > ylen
+    time_hdr['iedate'] = np.where(over, ((edate // 1000 + 1) % 100) * 1000 +
+                                  (edate % 1000 - ylen), edate)
     emiss_hdr['ibdate'] = time_hdr['ibdate'][0]
     emiss_hdr['btime'] = time_hdr['btime'][0]
     emiss_hdr['iedate'] = time_hdr['iedate'][-1]
